@@ -96,6 +96,14 @@ func c12Bases() []c12Base {
 					&gen.Call{Name: "set_account_meta", Args: []gen.Expr{v("src"), gen.Str("n"), v("n")}},
 				}}
 		}, nil, map[string]string{"n": "5", "amt": "USD 4", "p": "1/2", "s": "k", "src": "a", "as": "USD"}},
+		{"save-vars", func() *gen.Program {
+			return &gen.Program{Vars: []*gen.VarDecl{decl("monetary", "amt"), decl("account", "src")},
+				Stmts: []gen.Stmt{&gen.Save{Sent: &gen.SentLit{E: v("amt")}, Acct: v("src")}, sendN(U, "1", sa("a"), da("x"))}}
+		}, nil, map[string]string{"amt": "USD 2", "src": "a"}},
+		{"save-world", func() *gen.Program {
+			return &gen.Program{Vars: []*gen.VarDecl{decl("monetary", "amt")},
+				Stmts: []gen.Stmt{&gen.Save{Sent: &gen.SentLit{E: v("amt")}, Acct: gen.Acct("world")}, sendN(U, "1", sa("a"), da("x"))}}
+		}, nil, map[string]string{"amt": "USD 2"}},
 		{"infix-mon", func() *gen.Program {
 			return &gen.Program{Vars: []*gen.VarDecl{decl("monetary", "amt")},
 				Stmts: []gen.Stmt{&gen.Send{Sent: &gen.SentLit{E: &gen.Infix{Op: "+", L: v("amt"), R: gen.Mon(U, "2")}},
@@ -235,7 +243,7 @@ func runC12(w *mc.Worker) {
 		a, b *big.Int
 	}{{"rich", bi(10), bi(10)}, {"poor", bi(0), bi(0)}, {"negative", bi(-3), bi(10)}, {"huge", H, H}}
 	name := fmt.Sprintf("dev%d", total)
-	w.Stage(name, fmt.Sprintf("8 base scripts, at most %d deviation(s) in total (expression/allotment/declaration/call edits, variable values, sheets, metadata), every store call failed in turn", total), func() {
+	w.Stage(name, fmt.Sprintf("10 base scripts, at most %d deviation(s) in total (expression/allotment/declaration/call edits, variable values, sheets, metadata), every store call failed in turn", total), func() {
 		w.Outer(name+"/c12", total, func(o *mc.Explorer) {
 			b := bases[o.Choose(len(bases))]
 			prog := b.Mk()
